@@ -2,221 +2,113 @@
    Model: TwoPC.v (sop.SinglePhaseTransaction Begin / Commit / Rollback). Every theorem below holds for
    ANY number of participants and ANY behaviour of SOP's transaction and of each participant (they are
    arbitrary state machines sstep / pstep), hence for every combination of failure positions.
-   Vocabulary (TwoPCProofs.v):
+   Proofs: TwoPCProofs.v (induction on the participant list). Vocabulary (TwoPCProofs.v):
      before a b L        a occurs in the call log L and b occurs later
      parts_ev o ok i n   participants i..i+n-1 called once each, in order, with operation o and outcome ok
      all_shape o i n l   l = participants i..i+n-1 called exactly once each, in order, with operation o
-     rollback_shape n rb rb = SOP's Rollback followed by the Rollback of every one of the n participants
+     rollback_shape n rb rb = SOP's Rollback followed by the Rollback of each of the participants 0..n-1
      commit_shape / begin_shape   the complete list of possible call logs of Commit / Begin *)
 From Coq Require Import List Bool Arith Lia.
 From SopVerif Require Import TwoPC TwoPCProofs.
 Import ListNotations.
 
-Section C16.
-  Variables SS PS : Type.
-  Variable sstep : SS -> op -> bool * SS.
-  Variable pstep : PS -> op -> bool * PS.
-  Notation commit := (w_commit SS PS sstep pstep).
-  Notation rollback := (w_rollback SS PS sstep pstep).
-  Notation begin := (w_begin SS PS sstep pstep).
-
-  (* The complete characterisation of what Commit does: one of four call logs. *)
-  Theorem C16_commit_log : forall s ps,
-    commit_shape (length ps) (o_log (commit s ps)) (o_ok (commit s ps)).
-  Proof. intros s ps. apply (w_commit_spec SS PS sstep pstep s ps). Qed.
-
-  Lemma in_prefix_cases : forall e b k x,
-    In e (Ev Sop OP1 b :: parts_ev OP1 true 0 k ++ [x]) ->
-    e = Ev Sop OP1 b \/ (exists j, j < k /\ e = Ev (Part j) OP1 true) \/ e = x.
-  Proof.
-    intros e b k x [H|H]; [left; congruence|]. apply in_app_or in H. destruct H as [H|[H|[]]].
-    - right. left. apply parts_ev_In in H. destruct H as [j [Hj He]]. exists j. split; [lia|exact He].
-    - right. right. congruence.
-  Qed.
-
-  (* No participant's second phase runs unless every first phase succeeded and SOP's own second phase
-     succeeded — and they all did so BEFORE it; the only failures in such a log are second phases of
-     participants (which Commit ignores by design). *)
-  Theorem C16_p2_guard : forall s ps i ok,
-    let L := o_log (commit s ps) in
-    In (Ev (Part i) OP2 ok) L ->
-    o_ok (commit s ps) = true
-    /\ before (Ev Sop OP1 true) (Ev Sop OP2 true) L
-    /\ (forall j, j < length ps -> before (Ev (Part j) OP1 true) (Ev Sop OP2 true) L)
-    /\ before (Ev Sop OP2 true) (Ev (Part i) OP2 ok) L
-    /\ (forall e, In e L -> e_ok e = false -> e_op e = OP2 /\ e_who e <> Sop).
-  Proof.
-    intros s ps i ok L Hin. subst L. destruct (C16_commit_log s ps) as [H|[H|[H|H]]].
-    - exfalso. destruct H as [_ [rb [HL Hsh]]]. rewrite HL in Hin. destruct Hin as [Hin|Hin]; [discriminate|].
-      apply (rollback_shape_ops _ _ _ Hsh) in Hin. discriminate.
-    - exfalso. destruct H as [_ [k [rb [_ [HL Hsh]]]]]. rewrite HL in Hin. apply in_app_or in Hin. destruct Hin as [Hin|Hin].
-      + apply in_prefix_cases in Hin. destruct Hin as [Hin|[[j [_ Hin]]|Hin]]; discriminate.
-      + apply (rollback_shape_ops _ _ _ Hsh) in Hin. discriminate.
-    - exfalso. destruct H as [_ [rb [HL Hsh]]]. rewrite HL in Hin. apply in_app_or in Hin. destruct Hin as [Hin|Hin].
-      + apply in_prefix_cases in Hin. destruct Hin as [Hin|[[j [_ Hin]]|Hin]]; discriminate.
-      + apply (rollback_shape_ops _ _ _ Hsh) in Hin. discriminate.
-    - destruct H as [Hok [l2 [HL Hsh]]]. rewrite HL in *. split; [exact Hok|].
-      set (P := parts_ev OP1 true 0 (length ps)) in *.
-      assert (Hl2 : In (Ev (Part i) OP2 ok) l2).
-      { destruct Hin as [Hin|Hin]; [discriminate|]. apply in_app_or in Hin. destruct Hin as [Hin|[Hin|Hin]]; [|discriminate|exact Hin].
-        apply parts_ev_In in Hin. destruct Hin as [j [_ Hin]]. discriminate. }
-      split; [exists [], P, l2; reflexivity|]. split.
-      { intros j Hj. assert (Hp : In (Ev (Part j) OP1 true) P) by (apply parts_ev_In; exists j; split; [lia|reflexivity]).
-        apply in_split in Hp. destruct Hp as [u [v Hp]]. exists (Ev Sop OP1 true :: u), v, l2. rewrite Hp.
-        cbn [app]. rewrite <- app_assoc. reflexivity. }
-      split.
-      { replace (Ev Sop OP1 true :: P ++ Ev Sop OP2 true :: l2) with ((Ev Sop OP1 true :: P ++ [Ev Sop OP2 true]) ++ l2)
-          by (cbn [app]; rewrite <- app_assoc; reflexivity).
-        apply before_intro; [|exact Hl2]. right. apply in_or_app. right. left. reflexivity. }
-      intros e He Hf. destruct He as [He|He]; [subst; discriminate|]. apply in_app_or in He. destruct He as [He|[He|He]].
-      + apply parts_ev_In in He. destruct He as [j [_ He]]. subst. discriminate.
-      + subst. discriminate.
-      + destruct (all_shape_op _ _ _ _ _ Hsh He) as [Ho [j [_ Hw]]]. split; [exact Ho|]. rewrite Hw. discriminate.
-  Qed.
-
-  (* If anything fails before that (SOP's first phase, a participant's first phase, SOP's second phase):
-     Commit reports an error, SOP's Rollback is called and every participant is asked to roll back, all
-     AFTER the failure; no participant's second phase runs and SOP's second phase has not succeeded. *)
-  Theorem C16_rollback_fanout : forall s ps,
-    let L := o_log (commit s ps) in
-    o_ok (commit s ps) = false ->
-    exists f, In f L /\ e_ok f = false /\ (e_op f = OP1 \/ (e_op f = OP2 /\ e_who f = Sop))
-      /\ (exists okr, before f (Ev Sop ORollback okr) L)
-      /\ (forall j, j < length ps -> exists okj, before f (Ev (Part j) ORollback okj) L)
-      /\ (forall i ok, ~ In (Ev (Part i) OP2 ok) L)
-      /\ ~ In (Ev Sop OP2 true) L.
-  Proof.
-    intros s ps L Hok.
-    assert (Hno : forall i ok, ~ In (Ev (Part i) OP2 ok) L).
-    { intros i ok Hin. destruct (C16_p2_guard s ps i ok Hin) as [H _]. congruence. }
-    subst L. destruct (C16_commit_log s ps) as [H|[H|[H|H]]].
-    - destruct H as [_ [rb [HL Hsh]]]. exists (Ev Sop OP1 false). rewrite HL in *.
-      split; [left; reflexivity|]. split; [reflexivity|]. split; [left; reflexivity|]. split.
-      { destruct (rollback_shape_sop _ _ Hsh) as [okr Hr]. exists okr. apply before_intro; [left; reflexivity|exact Hr]. }
-      split.
-      { intros j Hj. destruct (rollback_shape_part _ _ j Hsh Hj) as [okj Hr]. exists okj. apply before_intro; [left; reflexivity|exact Hr]. }
-      split; [exact Hno|]. intros [Hin|Hin]; [discriminate|]. apply (rollback_shape_ops _ _ _ Hsh) in Hin. discriminate.
-    - destruct H as [_ [k [rb [Hk [HL Hsh]]]]]. exists (Ev (Part k) OP1 false). rewrite HL in *.
-      assert (Hf : In (Ev (Part k) OP1 false) (Ev Sop OP1 true :: parts_ev OP1 true 0 k ++ [Ev (Part k) OP1 false]))
-        by (right; apply in_or_app; right; left; reflexivity).
-      split; [apply in_or_app; left; exact Hf|]. split; [reflexivity|]. split; [left; reflexivity|]. split.
-      { destruct (rollback_shape_sop _ _ Hsh) as [okr Hr]. exists okr. apply before_intro; assumption. }
-      split.
-      { intros j Hj. destruct (rollback_shape_part _ _ j Hsh Hj) as [okj Hr]. exists okj. apply before_intro; assumption. }
-      split; [exact Hno|]. intro Hin. apply in_app_or in Hin. destruct Hin as [Hin|Hin].
-      + apply in_prefix_cases in Hin. destruct Hin as [Hin|[[j [_ Hin]]|Hin]]; discriminate.
-      + apply (rollback_shape_ops _ _ _ Hsh) in Hin. discriminate.
-    - destruct H as [_ [rb [HL Hsh]]]. exists (Ev Sop OP2 false). rewrite HL in *.
-      assert (Hf : In (Ev Sop OP2 false) (Ev Sop OP1 true :: parts_ev OP1 true 0 (length ps) ++ [Ev Sop OP2 false]))
-        by (right; apply in_or_app; right; left; reflexivity).
-      split; [apply in_or_app; left; exact Hf|]. split; [reflexivity|]. split; [right; split; reflexivity|]. split.
-      { destruct (rollback_shape_sop _ _ Hsh) as [okr Hr]. exists okr. apply before_intro; assumption. }
-      split.
-      { intros j Hj. destruct (rollback_shape_part _ _ j Hsh Hj) as [okj Hr]. exists okj. apply before_intro; assumption. }
-      split; [exact Hno|]. intro Hin. apply in_app_or in Hin. destruct Hin as [Hin|Hin].
-      + apply in_prefix_cases in Hin. destruct Hin as [Hin|[[j [_ Hin]]|Hin]]; discriminate.
-      + apply (rollback_shape_ops _ _ _ Hsh) in Hin. discriminate.
-    - destruct H as [Ht _]. congruence.
-  Qed.
-
-  (* Commit fails exactly when a first phase or SOP's second phase fails; when it succeeds every
-     participant's second phase has run exactly once and nobody was rolled back. *)
-  Theorem C16_commit_outcome : forall s ps,
-    let L := o_log (commit s ps) in
-    (o_ok (commit s ps) = false <->
-       exists f, In f L /\ e_ok f = false /\ (e_op f = OP1 \/ (e_op f = OP2 /\ e_who f = Sop))) /\
-    (o_ok (commit s ps) = true ->
-       (exists l2, L = Ev Sop OP1 true :: parts_ev OP1 true 0 (length ps) ++ Ev Sop OP2 true :: l2
-                   /\ all_shape OP2 0 (length ps) l2)
-       /\ forall e, In e L -> e_op e <> ORollback).
-  Proof.
-    intros s ps L. split; [split|].
-    - intro Hok. destruct (C16_rollback_fanout s ps Hok) as [f [H1 [H2 [H3 _]]]]. exists f. auto.
-    - intros [f [Hin [Hf Hop]]]. destruct (o_ok (commit s ps)) eqn:Hok; [|reflexivity]. exfalso.
-      subst L. destruct (C16_commit_log s ps) as [H|[H|[H|H]]]; try (destruct H as [H _]; congruence).
-      destruct H as [_ [l2 [HL Hsh]]]. rewrite HL in Hin.
-      destruct Hin as [Hin|Hin]; [subst; discriminate|]. apply in_app_or in Hin. destruct Hin as [Hin|[Hin|Hin]].
-      + apply parts_ev_In in Hin. destruct Hin as [j [_ Hin]]. subst. discriminate.
-      + subst. discriminate.
-      + destruct (all_shape_op _ _ _ _ _ Hsh Hin) as [Ho [j [_ Hw]]]. destruct Hop as [Hop|[_ Hop]]; congruence.
-    - intro Hok. subst L. destruct (C16_commit_log s ps) as [H|[H|[H|H]]]; try (destruct H as [H _]; congruence).
-      destruct H as [_ [l2 [HL Hsh]]]. split; [exists l2; split; assumption|]. rewrite HL.
-      intros e Hin. destruct Hin as [Hin|Hin]; [subst; discriminate|]. apply in_app_or in Hin. destruct Hin as [Hin|[Hin|Hin]].
-      + apply parts_ev_In in Hin. destruct Hin as [j [_ Hin]]. subst. discriminate.
-      + subst. discriminate.
-      + destruct (all_shape_op _ _ _ _ _ Hsh Hin) as [Ho _]. congruence.
-  Qed.
-
-  (* Rollback itself reaches SOP and every participant exactly once, in order, whichever rollbacks fail;
-     it reports success exactly when all of them succeeded. *)
-  Theorem C16_rollback_reaches_all : forall s ps,
-    rollback_shape (length ps) (o_log (rollback s ps)) /\
-    (o_ok (rollback s ps) = true <-> Forall (fun e => e_ok e = true) (o_log (rollback s ps))).
-  Proof. intros s ps. destruct (w_rollback_spec SS PS sstep pstep s ps) as [H1 [_ [_ H2]]]. split; assumption. Qed.
-
-  (* Begin: the complete list of call logs ... *)
-  Theorem C16_begin_log : forall s ps,
-    begin_shape (length ps) (o_log (begin s ps)) (o_ok (begin s ps)) /\ length (o_parts (begin s ps)) = length ps.
-  Proof. intros s ps. destruct (w_begin_spec SS PS sstep pstep s ps) as [H1 [H2 _]]. split; assumption. Qed.
-
-  (* ... none of which contains a Rollback: when a participant's Begin fails, SOP's transaction and the
-     participants before it have begun and NOBODY is asked to roll back (suspect S16, decided: the
-     statement "if anything fails before that ... every participant is asked to roll back" is false
-     for failures in Begin). *)
-  Theorem C16_begin_failure_no_fanout : forall s ps k,
-    let L := o_log (begin s ps) in
-    In (Ev (Part k) OBegin false) L ->
-    o_ok (begin s ps) = false
-    /\ In (Ev Sop OBegin true) L
-    /\ (forall j, j < k -> In (Ev (Part j) OBegin true) L)
-    /\ (forall e, In e L -> e_op e = OBegin).
-  Proof.
-    intros s ps k L Hin. subst L. destruct (C16_begin_log s ps) as [[H|[H|H]] _].
-    - exfalso. destruct H as [_ HL]. rewrite HL in Hin. destruct Hin as [Hin|Hin]; [discriminate|].
-      apply parts_ev_In in Hin. destruct Hin as [j [_ Hin]]. discriminate.
-    - exfalso. destruct H as [_ HL]. rewrite HL in Hin. destruct Hin as [Hin|[]]. discriminate.
-    - destruct H as [Hok [k' [Hk HL]]]. rewrite HL in *.
-      assert (k = k').
-      { destruct Hin as [Hin|Hin]; [discriminate|]. apply in_app_or in Hin. destruct Hin as [Hin|[Hin|[]]].
-        - apply parts_ev_In in Hin. destruct Hin as [j [_ Hin]]. discriminate.
-        - congruence. }
-      subst k'. split; [exact Hok|]. split; [left; reflexivity|]. split.
-      + intros j Hj. right. apply in_or_app. left. apply parts_ev_In. exists j. split; [lia|reflexivity].
-      + intros e He. destruct He as [He|He]; [subst; reflexivity|]. apply in_app_or in He. destruct He as [He|[He|[]]].
-        * apply parts_ev_In in He. destruct He as [j [_ He]]. subst. reflexivity.
-        * subst. reflexivity.
-  Qed.
-
-  (* The sessions of run_session are just these pieces glued: under the hypothesis that Begin succeeded
-     (which excludes exactly the refuting pattern) the log of the session is Begin's log followed by the
-     log of Commit over the same n participants, to which C16_p2_guard / C16_rollback_fanout apply; and a
-     caller who answers a failed Begin with Rollback does reach SOP and every participant. *)
-  Theorem C16_session_partial : forall cleanup s ps,
-    let b := begin s ps in
-    (o_ok b = true ->
-       fst (fst (fst (run_session SS PS sstep pstep SCommit cleanup s ps)))
-         = o_log b ++ o_log (commit (o_sop b) (o_parts b))
-       /\ length (o_parts b) = length ps) /\
-    (o_ok b = false ->
-       fst (fst (fst (run_session SS PS sstep pstep SCommit true s ps)))
-         = o_log b ++ o_log (rollback (o_sop b) (o_parts b))
-       /\ rollback_shape (length ps) (o_log (rollback (o_sop b) (o_parts b)))).
-  Proof.
-    intros cleanup s ps b. destruct (C16_begin_log s ps) as [_ Hlen]. fold b in Hlen. split; intro Hok.
-    - unfold run_session. fold b. rewrite Hok. cbn [fst]. split; [reflexivity|exact Hlen].
-    - unfold run_session. fold b. rewrite Hok. cbn [fst]. split; [reflexivity|].
-      rewrite <- Hlen. apply C16_rollback_reaches_all.
-  Qed.
-End C16.
-
+(* The complete characterisation of what Commit does: one of four call logs. *)
+Theorem C16_commit_log : forall (SS PS : Type) (sstep : SS -> op -> bool * SS) (pstep : PS -> op -> bool * PS) s ps,
+  commit_shape (length ps) (o_log (w_commit SS PS sstep pstep s ps)) (o_ok (w_commit SS PS sstep pstep s ps)).
+Proof. exact c16_commit_log. Qed.
 Print Assumptions C16_commit_log.
+
+(* No participant's second phase runs unless every first phase succeeded and SOP's own second phase
+   succeeded — and they all did so BEFORE it; the only failures in such a log are second phases of
+   participants (which Commit ignores by design). *)
+Theorem C16_p2_guard : forall (SS PS : Type) (sstep : SS -> op -> bool * SS) (pstep : PS -> op -> bool * PS) s ps i ok,
+  let L := o_log (w_commit SS PS sstep pstep s ps) in
+  In (Ev (Part i) OP2 ok) L ->
+  o_ok (w_commit SS PS sstep pstep s ps) = true
+  /\ before (Ev Sop OP1 true) (Ev Sop OP2 true) L
+  /\ (forall j, j < length ps -> before (Ev (Part j) OP1 true) (Ev Sop OP2 true) L)
+  /\ before (Ev Sop OP2 true) (Ev (Part i) OP2 ok) L
+  /\ (forall e, In e L -> e_ok e = false -> e_op e = OP2 /\ e_who e <> Sop).
+Proof. exact c16_p2_guard. Qed.
 Print Assumptions C16_p2_guard.
+
+(* If anything fails before that (SOP's first phase, a participant's first phase, SOP's second phase):
+   Commit reports an error, SOP's Rollback is called and every participant is asked to roll back, all
+   AFTER the failure; no participant's second phase runs and SOP's second phase has not succeeded. *)
+Theorem C16_rollback_fanout : forall (SS PS : Type) (sstep : SS -> op -> bool * SS) (pstep : PS -> op -> bool * PS) s ps,
+  let L := o_log (w_commit SS PS sstep pstep s ps) in
+  o_ok (w_commit SS PS sstep pstep s ps) = false ->
+  exists f, In f L /\ e_ok f = false /\ (e_op f = OP1 \/ (e_op f = OP2 /\ e_who f = Sop))
+    /\ (exists okr, before f (Ev Sop ORollback okr) L)
+    /\ (forall j, j < length ps -> exists okj, before f (Ev (Part j) ORollback okj) L)
+    /\ (forall i ok, ~ In (Ev (Part i) OP2 ok) L)
+    /\ ~ In (Ev Sop OP2 true) L.
+Proof. exact c16_rollback_fanout. Qed.
 Print Assumptions C16_rollback_fanout.
+
+(* Commit fails exactly when a first phase or SOP's second phase fails; when it succeeds every
+   participant's second phase has run exactly once and nobody was rolled back. *)
+Theorem C16_commit_outcome : forall (SS PS : Type) (sstep : SS -> op -> bool * SS) (pstep : PS -> op -> bool * PS) s ps,
+  let L := o_log (w_commit SS PS sstep pstep s ps) in
+  (o_ok (w_commit SS PS sstep pstep s ps) = false <->
+     exists f, In f L /\ e_ok f = false /\ (e_op f = OP1 \/ (e_op f = OP2 /\ e_who f = Sop))) /\
+  (o_ok (w_commit SS PS sstep pstep s ps) = true ->
+     (exists l2, L = Ev Sop OP1 true :: parts_ev OP1 true 0 (length ps) ++ Ev Sop OP2 true :: l2
+                 /\ all_shape OP2 0 (length ps) l2)
+     /\ forall e, In e L -> e_op e <> ORollback).
+Proof. exact c16_commit_outcome. Qed.
 Print Assumptions C16_commit_outcome.
+
+(* Rollback itself reaches SOP and every participant exactly once, in order, whichever rollbacks fail;
+   it reports success exactly when all of them succeeded. *)
+Theorem C16_rollback_reaches_all : forall (SS PS : Type) (sstep : SS -> op -> bool * SS) (pstep : PS -> op -> bool * PS) s ps,
+  rollback_shape (length ps) (o_log (w_rollback SS PS sstep pstep s ps)) /\
+  (o_ok (w_rollback SS PS sstep pstep s ps) = true <->
+   Forall (fun e => e_ok e = true) (o_log (w_rollback SS PS sstep pstep s ps))).
+Proof. exact c16_rollback_reaches_all. Qed.
 Print Assumptions C16_rollback_reaches_all.
+
+(* Begin: the complete list of call logs — all succeed; SOP's own Begin fails and nothing else is
+   called; participant k's Begin fails and then SOP's transaction and the participants 0..k-1 are rolled back. *)
+Theorem C16_begin_log : forall (SS PS : Type) (sstep : SS -> op -> bool * SS) (pstep : PS -> op -> bool * PS) s ps,
+  begin_shape (length ps) (o_log (w_begin SS PS sstep pstep s ps)) (o_ok (w_begin SS PS sstep pstep s ps))
+  /\ length (o_parts (w_begin SS PS sstep pstep s ps)) = length ps.
+Proof. exact c16_begin_log. Qed.
 Print Assumptions C16_begin_log.
-Print Assumptions C16_begin_failure_no_fanout.
-Print Assumptions C16_session_partial.
+
+(* A failure in Begin is also "anything fails before that": when participant k's Begin fails, Begin
+   reports the error, and AFTER the failure SOP's transaction and every participant that had begun
+   (0..k-1) are asked to roll back; the participants from k on never began and receive no other call.
+   (Was refuted before the repair of SinglePhaseTransaction.Begin: finding begin-failure-no-rollback-fanout.) *)
+Theorem C16_begin_fanout : forall (SS PS : Type) (sstep : SS -> op -> bool * SS) (pstep : PS -> op -> bool * PS) s ps k,
+  let L := o_log (w_begin SS PS sstep pstep s ps) in
+  let f := Ev (Part k) OBegin false in
+  In f L ->
+  o_ok (w_begin SS PS sstep pstep s ps) = false
+  /\ In (Ev Sop OBegin true) L
+  /\ (exists okr, before f (Ev Sop ORollback okr) L)
+  /\ (forall j, j < k -> In (Ev (Part j) OBegin true) L /\ exists okj, before f (Ev (Part j) ORollback okj) L)
+  /\ (forall j o ok, k <= j -> In (Ev (Part j) o ok) L -> Ev (Part j) o ok = f).
+Proof. exact c16_begin_fanout. Qed.
+Print Assumptions C16_begin_fanout.
+
+(* When SOP's own Begin fails nothing has begun and nothing else is called. *)
+Theorem C16_begin_sop_failure : forall (SS PS : Type) (sstep : SS -> op -> bool * SS) (pstep : PS -> op -> bool * PS) s ps,
+  In (Ev Sop OBegin false) (o_log (w_begin SS PS sstep pstep s ps)) ->
+  o_ok (w_begin SS PS sstep pstep s ps) = false /\ o_log (w_begin SS PS sstep pstep s ps) = [Ev Sop OBegin false].
+Proof. exact c16_begin_sop_failure. Qed.
+Print Assumptions C16_begin_sop_failure.
+
+(* The whole session Begin; Commit (with or without an extra Rollback by the caller after a failed
+   Begin), no hypothesis on where the failure is: whenever a top-level call reports an error, SOP's
+   transaction and every participant that had begun successfully are asked to roll back afterwards. *)
+Theorem C16_session : forall (SS PS : Type) (sstep : SS -> op -> bool * SS) (pstep : PS -> op -> bool * PS) cleanup s ps w,
+  let '(L, res, _, _) := run_session SS PS sstep pstep SCommit cleanup s ps in
+  In false res ->
+  In (Ev w OBegin true) (o_log (w_begin SS PS sstep pstep s ps)) ->
+  exists ok, before (Ev w OBegin true) (Ev w ORollback ok) L.
+Proof. exact c16_session. Qed.
+Print Assumptions C16_session.
 
 (* SOP's own outcome, with the phase state machine of common.Transaction as SOP's participant and any
    participants: after a Commit that reports an error the transaction has ended without being committed
@@ -229,38 +121,22 @@ Theorem C16_sop_outcome : forall (PS : Type) (pstep : PS -> op -> bool * PS) sc 
   s_phase (o_sop r) = Done /\
   (o_ok r = true -> s_committed (o_sop r) = true) /\
   (o_ok r = false -> s_committed (o_sop r) = committed0).
-Proof.
-  intros PS pstep sc ps c0 H2 Hr r. subst r. unfold w_commit, fail_with, w_rollback.
-  destruct sc as [fb f1 f2 fr]. cbn [sf_p2 sf_rollback] in H2, Hr.
-  destruct (until_fail PS pstep OP1 0 ps) as [[l1 okp] ps1] eqn:Eu.
-  destruct f1, okp, f2, fr; try congruence; cbn -[for_all until_fail];
-    rewrite ?Eu; cbn -[for_all until_fail];
-    repeat match goal with
-    | |- context [for_all ?a ?b ?c ?d ?e] => destruct (for_all a b c d e) as [[? ?] ?]
-    end; cbn; repeat split; intros; congruence.
-Qed.
+Proof. exact c16_sop_outcome. Qed.
 Print Assumptions C16_sop_outcome.
 
-(* The refutation on the faithful instance: two well-behaved participants except that the second one's
-   Begin fails. Begin returns an error, SOP's transaction and participant 0 are left begun, no Rollback
-   is issued (reproduced on the implementation: finding begin-failure-no-rollback-fanout). *)
+(* ... and after a Begin that reports an error SOP's transaction is not left begun (same exclusions:
+   a Begin that starts and then reports failure, a Rollback that is not executed). *)
+Theorem C16_begin_sop_outcome : forall (PS : Type) (pstep : PS -> op -> bool * PS) sc ps,
+  sf_begin sc <> FAfter -> sf_rollback sc <> FBefore ->
+  let r := w_begin sop_state PS lifecycle pstep (sop_init sc) ps in
+  o_ok r = false -> has_begun (s_phase (o_sop r)) = false /\ s_committed (o_sop r) = false.
+Proof. exact c16_begin_sop_outcome. Qed.
+Print Assumptions C16_begin_sop_outcome.
+
+(* ------------------------------------------------------------------ non-vacuity *)
 Definition ok_part : pscript := PScript false false false false.
 Definition no_faults : sscript := SScript FNone FNone FNone FNone.
 
-Theorem C16_begin_fanout_refuted :
-  exists sc ps,
-    let '(log, results, s, _) := run_scripted SCommit false sc ps in
-    results = [false]
-    /\ In (Ev Sop OBegin true) log /\ In (Ev (Part 0) OBegin true) log
-    /\ (forall e, In e log -> e_op e <> ORollback)
-    /\ has_begun (s_phase s) = true.
-Proof.
-  exists no_faults, [ok_part; PScript true false false false]. vm_compute.
-  repeat split; auto. intros e [H|[H|[H|[]]]]; subst; discriminate.
-Qed.
-Print Assumptions C16_begin_fanout_refuted.
-
-(* ------------------------------------------------------------------ non-vacuity *)
 Example C16_nonvacuous :
   (* a commit over three participants that succeeds although two second phases fail *)
   (let '(log, results, s, _) := run_scripted SCommit false no_faults [ok_part; PScript false false true false; PScript false false true true] in
@@ -270,5 +146,10 @@ Example C16_nonvacuous :
    results = [true; false] /\ s_committed s = false /\ s_phase s = Done
    /\ log = [Ev Sop OBegin true; Ev (Part 0) OBegin true; Ev (Part 1) OBegin true; Ev (Part 2) OBegin true;
              Ev Sop OP1 true; Ev (Part 0) OP1 true; Ev (Part 1) OP1 false;
-             Ev Sop ORollback true; Ev (Part 0) ORollback false; Ev (Part 1) ORollback true; Ev (Part 2) ORollback true]).
+             Ev Sop ORollback true; Ev (Part 0) ORollback false; Ev (Part 1) ORollback true; Ev (Part 2) ORollback true]) /\
+  (* the second participant's Begin fails: SOP's transaction and participant 0 are rolled back, nothing stays begun *)
+  (let '(log, results, s, _) := run_scripted SCommit false no_faults [ok_part; PScript true false false false; ok_part] in
+   results = [false] /\ has_begun (s_phase s) = false
+   /\ log = [Ev Sop OBegin true; Ev (Part 0) OBegin true; Ev (Part 1) OBegin false;
+             Ev Sop ORollback true; Ev (Part 0) ORollback true]).
 Proof. vm_compute. repeat split. Qed.
